@@ -11,6 +11,8 @@
 //!   W  the body of a P program wrapped in a capture construct must render identically
 //!   M  mode probes: capture inside an `autoescape` region, printed under Html
 //!   N  template-name → initial auto-escape
+//!   K  values of every kind (bytes valid/invalid UTF-8, floats, 128-bit integers, objects, containers
+//!      of them) through every printing path, as AST programs
 //!   X  upper/lower/capitalize over all Unicode scalar values create no metacharacter
 //!
 //! Strings are written as decimal code points joined by `.` (`-` = empty); values as
@@ -24,6 +26,22 @@ use std::io::Write;
 use std::sync::Mutex;
 
 static PROBE: Mutex<Option<Value>> = Mutex::new(None);
+
+/// an object that is neither a sequence nor a map; `render` writes the given text
+#[derive(Debug)]
+struct TextObj(String);
+impl minijinja::value::Object for TextObj {
+    fn repr(self: &std::sync::Arc<Self>) -> minijinja::value::ObjectRepr {
+        minijinja::value::ObjectRepr::Plain
+    }
+    fn render(self: &std::sync::Arc<Self>, f: &mut std::fmt::Formatter<'_>) -> std::fmt::Result {
+        f.write_str(&self.0)
+    }
+}
+
+fn enc_bytes(b: &[u8]) -> String {
+    if b.is_empty() { "-".into() } else { b.iter().map(|x| x.to_string()).collect::<Vec<_>>().join(",") }
+}
 
 fn mk_env() -> Environment<'static> {
     let mut env = Environment::new();
@@ -87,6 +105,7 @@ fn enc_value(v: &Value) -> String {
             }
             Err(_) => "O:-".into(),
         },
+        ValueKind::Bytes => format!("Y:{}", enc_bytes(v.as_bytes().unwrap())),
         _ => format!("O:{}", enc_str(&v.to_string())),
     }
 }
@@ -144,10 +163,23 @@ impl<'a> P<'a> {
             return Value::from(dec_str(r));
         }
         if let Some(r) = t.strip_prefix("I:") {
-            return Value::from(r.parse::<i64>().unwrap());
+            return match r.parse::<i64>() {
+                Ok(n) => Value::from(n),
+                Err(_) => match r.parse::<i128>() {
+                    Ok(n) => Value::from(n),
+                    Err(_) => Value::from(r.parse::<u128>().unwrap()),
+                },
+            };
         }
         if let Some(r) = t.strip_prefix("F:") {
             return Value::from(dec_str(r).parse::<f64>().unwrap());
+        }
+        if let Some(r) = t.strip_prefix("Y:") {
+            let b: Vec<u8> = if r == "-" { vec![] } else { r.split(',').map(|x| x.parse().unwrap()).collect() };
+            return Value::from_bytes(b);
+        }
+        if let Some(r) = t.strip_prefix("O:") {
+            return Value::from_object(TextObj(dec_str(r)));
         }
         if let Some(r) = t.strip_prefix("B:") {
             return Value::from(r == "1");
@@ -249,6 +281,8 @@ enum Arg {
     SlotC(usize, String, String), // custom content (data form, markup form)
     Fixed(String, bool),          // fixed string, safe?
     Int(i64),
+    /// already encoded value with Q q K k placeholders resolved per pass: bytes / float / object / big integer
+    Kind(String, String),
     Bool(bool),
     None,
     Undef,
@@ -311,6 +345,9 @@ impl<'a> AP<'a> {
             self.i += 1;
             return Arg::Map(xs);
         }
+        if t == "YV" || t == "YI" || t == "OB" || t == "FL" || t == "BIG" {
+            return Arg::Kind(t, self.braces());
+        }
         if t == "n" {
             return Arg::Fixed(self.braces(), false);
         }
@@ -370,6 +407,22 @@ fn arg_enc(a: &Arg, mask: u32, pass: usize, variant: usize) -> String {
         }
         Arg::Fixed(t, safe) => format!("S{}:{}", *safe as u8, enc_str(&subst(t, pass))),
         Arg::Int(n) => format!("I:{n}"),
+        Arg::Kind(k, text) => {
+            let t = subst(text, pass);
+            match k.as_str() {
+                "YV" => format!("Y:{}", enc_bytes(t.as_bytes())),
+                "YI" => {
+                    // not valid UTF-8: a stray 0xFF in front, a lone lead byte and a stray continuation byte behind
+                    let mut b = vec![0xFFu8];
+                    b.extend_from_slice(t.as_bytes());
+                    b.extend_from_slice(&[0xC3, 0x28, 0x80]);
+                    format!("Y:{}", enc_bytes(&b))
+                }
+                "OB" => format!("O:{}", enc_str(&t)),
+                "FL" => format!("F:{}", enc_str(&t)),
+                _ => format!("I:{t}"),
+            }
+        }
         Arg::Bool(b) => format!("B:{}", *b as u8),
         Arg::None => "N".into(),
         Arg::Undef => "U".into(),
@@ -428,6 +481,12 @@ fn model_build(enc: &str, steps: &mut Vec<String>, nreg: &mut usize) -> Option<u
             format!("I {r}")
         } else if let Some(r) = t.strip_prefix("B:") {
             format!("B {r}")
+        } else if let Some(r) = t.strip_prefix("Y:") {
+            format!("Y {r}")
+        } else if let Some(r) = t.strip_prefix("F:") {
+            format!("F {r}")
+        } else if let Some(r) = t.strip_prefix("O:") {
+            format!("O {r}")
         } else if t == "N" {
             "N".into()
         } else if t == "U" {
@@ -586,6 +645,46 @@ static FDEFS: &[FDef] = &[
     c("striptags", "a0|striptags", &["s0"]),
     c("filesizeformat", "a0|filesizeformat", &["I:1000000"]),
     c("debug", "debug()", &["s0"]),
+    // ---- the value KIND as an axis of everything that prints or stringifies: bytes (valid / invalid
+    //      UTF-8), floats, big integers, objects with their own render, containers of those
+    f("e", "a0|e", &["YI{Qαq&}"], "escape", &[]),
+    f("e", "a0|e", &["YV{Qαq&}"], "escape", &[]),
+    f("e", "a0|e", &["OB{Qαq&}"], "escape", &[]),
+    f("e", "a0|e", &["FL{1.5}"], "escape", &[]),
+    f("e", "a0|e", &["BIG{-170141183460469231731687303715884105728}"], "escape", &[]),
+    f("e", "a0|e", &["BIG{340282366920938463463374607431768211455}"], "escape", &[]),
+    f("e", "a0|e", &["L(YI{Qq};OB{Qα};s0;FL{2.5})"], "escape", &[]),
+    f("e", "a0|e", &["M(k=YI{Qq};v=OB{qα})"], "escape", &[]),
+    f("e", "a0|e|e", &["YI{Qαq}"], "escape", &[]),
+    f("string", "a0|string", &["YI{Qαq&}"], "string", &[]),
+    f("string", "a0|string", &["YV{Qαq&}"], "string", &[]),
+    f("string", "a0|string", &["OB{Qαq&}"], "string", &[]),
+    f("string", "a0|string", &["L(YV{Q};YI{q};OB{Q})"], "string", &[]),
+    f("op~", "a0 ~ a1", &["YI{Qαq}", "s0"], "concat", &[]),
+    f("op~", "a0 ~ a1", &["s0", "OB{Qαq}"], "concat", &[]),
+    f("op~", "a0 ~ a1", &["FL{0.25}", "YV{Qq}"], "concat", &[]),
+    f("op[:]", "a0[1:6]", &["YI{Qαq&}"], "slice", &[1, 6]),
+    f("op[:]", "a0[0:3]", &["YV{Qαq&}"], "slice", &[0, 3]),
+    f("reverse", "a0|reverse", &["YI{Qq}"], "reverse", &[]),
+    f("length", "a0|length", &["YI{Qαq}"], "length", &[]),
+    f("join", "a0|join(a1)", &["L(YI{Qq};OB{Qα};s0;FL{2.5})", "s1"], "join", &[]),
+    f("join", "a0|join(a1)", &["L(s0;s1)", "YV{Qq}"], "join", &[]),
+    f("join", "a0|join(a1)", &["L(s0;s1)", "OB{Qq}"], "join", &[]),
+    f("replace", "a0|replace(a1, a2)", &["YI{QαQ}", "n{α}", "s2"], "replace", &[]),
+    f("replace", "a0|replace(a1, a2)", &["s0", "n{α}", "OB{Qq}"], "replace", &[]),
+    f("upper", "a0|upper", &["YV{Qαq}"], "upper", &[]),
+    f("trim", "a0|trim", &["OB{ Qαq }"], "trim", &[]),
+    f("default", "a0|default(a1)", &["U", "YI{Qq}"], "default", &[0]),
+    f("format", "a0|format(a1, a2)", &["c0{%sQ|%sq|%sK|%sk}", "YI{Qαq}", "OB{qQ}"], "format", &[]),
+    f("truncate", "a0|truncate(length=4, killwords=true, end=a1, leeway=0)", &["s0", "n{..}"], "truncate", &[4, 0, 1]),
+    c("first#select", "a0|first", &["L(YI{Qq};s0)"]),
+    c("last#select", "a0|last", &["L(s0;OB{Qq})"]),
+    c("sort#select", "a0|sort", &["L(YV{Qb};YV{Qa})"]),
+    c("list#select", "a0|list", &["L(YI{Q};OB{q})"]),
+    c("items#select", "a0|items", &["M(k=YI{Qq};v=OB{qα})"]),
+    c("pprint", "a0|pprint", &["L(YI{Qq};OB{Qα})"]),
+    c("urlencode", "a0|urlencode", &["YI{Qq}"]),
+    c("striptags", "a0|striptags", &["YV{KbkQq}"]),
     // ---- contrib filters / functions behind cargo features (skipped by the checker if not registered)
     c("random", "a0|random", &["L(s0;s1;s2)"]),
     c("random", "a0|random", &["s0"]),
@@ -711,6 +810,41 @@ fn gen_fc(out: &mut impl Write, tier: &str) {
 }
 
 // ------------------------------------------------------------------------------- stream X
+/// the number formatter never produces a metacharacter: floats (random bit patterns + specials),
+/// 128-bit integers — `Display` text and what `{{ v }}` prints under Html
+fn gen_numbers(out: &mut impl Write) {
+    let mut rng = Rng::new(seed_from_env() ^ 0x5eed);
+    let mut env = mk_env();
+    env.add_template_owned("n.html".to_string(), "{{ v }}|{{ v|e }}|{{ [v] }}".to_string()).unwrap();
+    let t = env.get_template("n.html").unwrap();
+    let mut vals: Vec<Value> = vec![
+        Value::from(f64::NAN), Value::from(f64::INFINITY), Value::from(f64::NEG_INFINITY), Value::from(0.0), Value::from(-0.0),
+        Value::from(f64::MAX), Value::from(f64::MIN_POSITIVE), Value::from(5e-324), Value::from(i128::MIN), Value::from(i128::MAX),
+        Value::from(u128::MAX), Value::from(u64::MAX), Value::from(i64::MIN),
+    ];
+    for _ in 0..20000 {
+        vals.push(Value::from(f64::from_bits(rng.next())));
+    }
+    let allowed = "0123456789.-+einfNa";
+    let mut bad = vec![];
+    for v in &vals {
+        let text = v.to_string();
+        let mut ctx = BTreeMap::new();
+        ctx.insert("v", v.clone());
+        let printed = t.render(Value::from(ctx)).unwrap();
+        // `{{ v }}` and `{{ v|e }}` are the Display text; inside a list the Debug text is used — same alphabet
+        let ok = text.chars().all(|c| allowed.contains(c))
+            && printed.starts_with(&format!("{text}|{text}|["))
+            && printed.chars().all(|c| allowed.contains(c) || "|[]".contains(c));
+        if !ok {
+            bad.push(format!("{text:?}->{printed:?}"));
+        }
+    }
+    let case = json!({"s": "X", "name": "number-display", "prefix": "", "chars": vals.len()});
+    let res = if bad.is_empty() { "OK\t-\t-".to_string() } else { format!("FAIL\t{}\t0", enc_str(&bad[..bad.len().min(5)].join(" "))) };
+    writeln!(out, "{}\t{}", case, res).unwrap();
+}
+
 fn gen_x(out: &mut impl Write) {
     let env = mk_env();
     let metas = ['<', '>', '"', '\''];
@@ -809,6 +943,101 @@ fn gen_modes(out: &mut impl Write) {
             let case = json!({"s": "M", "kind": "looprec", "site": "end_capture", "region": region, "mode": m, "t": t, "ctx": ctx,
                 "model": format!("D {}|BC|E {m} 0|EC {m}|E h 1", enc_str(dv))});
             emit_case(out, case);
+        }
+    }
+}
+
+/// stream K: values of every kind through every printing path (as AST programs for `execProg`)
+fn gen_kinds(out: &mut impl Write) {
+    let texts = ["<α>\"β'&", "'><script x=\"1\">"];
+    for text in texts {
+        let mut invalid = vec![0xFFu8];
+        invalid.extend_from_slice(text.as_bytes());
+        invalid.extend_from_slice(&[0xC3, 0x28, 0x80]);
+        let yi = format!("Y:{}", enc_bytes(&invalid));
+        let yv = format!("Y:{}", enc_bytes(text.as_bytes()));
+        let ob = format!("O:{}", enc_str(text));
+        let d = format!("S0:{}", enc_str(text));
+        let kinds: Vec<(&str, String, bool)> = vec![
+            ("bytes-invalid-utf8", yi.clone(), true),
+            ("bytes-valid-utf8", yv.clone(), true),
+            ("object-render", ob.clone(), false),
+            ("float", format!("F:{}", enc_str("1.5")), false),
+            ("float-nan", format!("F:{}", enc_str("NaN")), false),
+            ("float-inf", format!("F:{}", enc_str("-inf")), false),
+            ("i128", "I:-170141183460469231731687303715884105728".into(), false),
+            ("u128", "I:340282366920938463463374607431768211455".into(), false),
+            ("list-of-kinds", format!("L({yi};{ob};{d};F:{};{yv})", enc_str("2.5")), false),
+            ("map-of-kinds", format!("M({}={yi};{}={ob})", enc_str("k"), enc_str("v")), false),
+            ("nested", format!("L(L({yi});M({}=L({ob})))", enc_str("k")), false),
+        ];
+        for (kind, enc, is_bytes) in kinds {
+            let mut ctx = serde_json::Map::new();
+            ctx.insert("k".into(), json!(enc));
+            ctx.insert("d".into(), json!(d));
+            let k = || E::Var("k".into());
+            let dv = || E::Var("d".into());
+            let filt = |m: &str, syn: &str, args: Vec<E>, ps: Vec<u64>| E::Filt(m.into(), syn.into(), args, ps);
+            let mac = |name: &str, params: Vec<&str>, body: Vec<S>, uc: bool| MacroDef {
+                name: name.into(), params: params.into_iter().map(|s| s.to_string()).collect(), body, uses_caller: uc,
+            };
+            let macros = vec![
+                mac("show", vec!["a"], vec![S::Text("(".into()), S::Emit(E::Var("a".into())), S::Text(")".into())], false),
+                mac("wrap", vec![], vec![S::Text("[".into()), S::Emit(E::Caller), S::Text("]".into())], true),
+            ];
+            let mut probes: Vec<(&str, Vec<S>)> = vec![
+                ("print", vec![S::Emit(k())]),
+                ("set-block", vec![S::SetBlock("x".into(), vec![S::Emit(k())], None), S::Emit(E::Var("x".into()))]),
+                ("set-block-filter", vec![S::SetBlock("x".into(), vec![S::Emit(k())], Some(("trim".into(), "trim".into(), vec![]))), S::Emit(E::Var("x".into()))]),
+                ("macro-arg", vec![S::Emit(E::Call("show".into(), vec![k()]))]),
+                ("macro-arg-concat", vec![S::Emit(E::Bin("~", Box::new(E::Call("show".into(), vec![k()])), Box::new(k())))]),
+                ("call-block", vec![S::CallBlock("wrap".into(), vec![], vec![S::Emit(k())])]),
+                ("filter-block", vec![S::FilterBlock("upper".into(), "upper".into(), vec![], vec![S::Emit(k())])]),
+                ("escape", vec![S::Emit(filt("escape", "e", vec![k()], vec![]))]),
+                ("escape-string-concat", vec![S::Emit(E::Bin("~", Box::new(filt("escape", "escape", vec![k()], vec![])), Box::new(k())))]),
+                ("string", vec![S::Emit(filt("string", "string", vec![k()], vec![]))]),
+                ("concat", vec![S::Emit(E::Bin("~", Box::new(k()), Box::new(dv())))]),
+                ("join", vec![S::Emit(filt("join", "join({1})", vec![E::List(vec![k(), dv()]), dv()], vec![]))]),
+                ("join-safe-joiner", vec![S::SetBlock("j".into(), vec![S::Text("-".into())], None),
+                    S::Emit(filt("join", "join({1})", vec![E::List(vec![k(), dv(), k()]), E::Var("j".into())], vec![]))]),
+                ("join-as-joiner", vec![S::SetBlock("j".into(), vec![S::Text("-".into())], None),
+                    S::Emit(filt("join", "join({1})", vec![E::List(vec![E::Var("j".into()), dv()]), k()], vec![]))]),
+                ("for-item", vec![S::For("x".into(), E::List(vec![k(), dv()]), false, vec![S::Emit(E::Var("x".into()))], vec![])]),
+                ("default", vec![S::Emit(filt("default", "default({1})", vec![E::Var("nope".into()), k()], vec![0]))]),
+                ("format-safe", vec![S::SetBlock("f".into(), vec![S::Text("%s|%s".into())], None),
+                    S::Emit(filt("format", "format({1}, {2})", vec![E::Var("f".into()), k(), dv()], vec![]))]),
+                ("replace-safe-arg", vec![S::SetBlock("r".into(), vec![S::Text("R".into())], None),
+                    S::Emit(filt("replace", "replace({1}, {2})", vec![k(), E::Lit("α".into()), E::Var("r".into())], vec![]))]),
+                ("replace-into-safe", vec![S::SetBlock("r".into(), vec![S::Text("aRb".into())], None),
+                    S::Emit(filt("replace", "replace({1}, {2})", vec![E::Var("r".into()), E::Lit("R".into()), k()], vec![]))]),
+                ("include", vec![S::Include("inc.html".into())]),
+                ("block-super", vec![]),
+                ("cond", vec![S::Emit(E::Cond(Box::new(k()), Box::new(k()), Box::new(dv())))]),
+                ("autoescape-true", vec![S::Auto("true", vec![S::Emit(k()), S::SetBlock("x".into(), vec![S::Emit(k())], None)]), S::Emit(E::Var("x".into()))]),
+            ];
+            if is_bytes {
+                probes.push(("slice", vec![S::Emit(E::Slice(Box::new(k()), 1, 7))]));
+                probes.push(("slice-escape", vec![S::Emit(filt("escape", "e", vec![E::Slice(Box::new(k()), 0, 6)], vec![]))]));
+                probes.push(("reverse", vec![S::Emit(filt("reverse", "reverse", vec![k()], vec![]))]));
+                probes.push(("method-on-text", vec![S::Emit(E::Meth("upper".into(), vec![filt("string", "string", vec![k()], vec![])], vec![]))]));
+            }
+            for (probe, body) in probes {
+                if probe == "format-safe" && kind.starts_with("float") {
+                    continue; // `%s` of a float goes through the float formatter, which is not modelled
+                }
+                let inc = Tmpl { name: "inc.html".into(), extends: None, imports: vec![], macros: vec![], body: vec![S::Text("i:".into()), S::Emit(k())] };
+                let mut ts = vec![inc];
+                let main = if probe == "block-super" {
+                    ts.push(Tmpl { name: "base.xml".into(), extends: None, imports: vec![], macros: vec![], body: vec![S::Block("b".into(), vec![S::Emit(k())])] });
+                    Tmpl { name: "main.html".into(), extends: Some("base.xml".into()), imports: vec![], macros: macros.clone(),
+                        body: vec![S::Block("b".into(), vec![S::Emit(E::Super), S::Text("+".into()), S::Emit(E::Bin("~", Box::new(E::Super), Box::new(k())))])] }
+                } else {
+                    Tmpl { name: "main.html".into(), extends: None, imports: vec![], macros: macros.clone(), body }
+                };
+                ts.push(main);
+                let case = prog_case("K", &ts, "main.html", &ctx, true, json!({"kind": kind, "probe": probe, "feats": [kind, probe]}));
+                emit_case(out, case);
+            }
         }
     }
 }
@@ -1103,6 +1332,15 @@ fn cv_sx(enc: &str) -> String {
         if let Some(r) = t.strip_prefix("B:") {
             return format!("(b {r})");
         }
+        if let Some(r) = t.strip_prefix("Y:") {
+            return format!("(y {r})");
+        }
+        if let Some(r) = t.strip_prefix("F:") {
+            return format!("(f {})", if r.is_empty() { "-" } else { r });
+        }
+        if let Some(r) = t.strip_prefix("O:") {
+            return format!("(o {})", if r.is_empty() { "-" } else { r });
+        }
         if t == "N" {
             return "(n)".into();
         }
@@ -1150,6 +1388,8 @@ struct Program {
     lists: Vec<(String, Vec<String>)>,
     flags: Vec<(String, bool)>,
     tree: Vec<Tree>,
+    /// context values that are not strings: name → encoded value (bytes, object, float, 128-bit integer)
+    kinds: Vec<(String, String)>,
 }
 
 // ---- generator
@@ -1193,7 +1433,30 @@ impl Gen {
             self.feats.push(f);
         }
     }
+    /// a context value that is not a string (bytes valid / invalid UTF-8, object, float, 128-bit integer)
+    fn kind_var(&mut self) -> E {
+        E::Var(self.rng.pick(&["kb", "kv", "ko", "kf", "ki"]).to_string())
+    }
+    /// an expression that prints / stringifies such a value
+    fn kind_expr(&mut self, sc: &Scope) -> E {
+        self.feat("value-kinds");
+        let k = self.kind_var();
+        match self.rng.below(8) {
+            0 | 1 => k,
+            2 => E::Filt("escape".into(), "e".into(), vec![k], vec![]),
+            3 => E::Filt("string".into(), "string".into(), vec![k], vec![]),
+            4 => E::Bin("~", Box::new(k), Box::new(self.str_expr(1, sc))),
+            5 => E::Filt("join".into(), "join({1})".into(), vec![E::List(vec![k, self.str_expr(1, sc), self.kind_var()]), self.str_expr(1, sc)], vec![]),
+            6 => { let x = self.rng.below(3) as usize; let y = x + self.rng.below(6) as usize; E::Slice(Box::new(E::Var(if self.rng.chance(1, 2) { "kb" } else { "kv" }.to_string())), x, y) }
+            _ => E::Filt("default".into(), "default({1})".into(), vec![E::Var("nope".into()), k], vec![0]),
+        }
+    }
     fn str_expr(&mut self, depth: usize, sc: &Scope) -> E {
+        if self.rng.chance(1, 16) {
+            // the text of a non-string value as a string operand of whatever comes next
+            self.feat("value-kinds");
+            return E::Filt("string".into(), "string".into(), vec![self.kind_var()], vec![]);
+        }
         if depth == 0 || self.rng.chance(1, 4) {
             return if !sc.strs.is_empty() && self.rng.chance(3, 4) { E::Var(self.rng.pick(&sc.strs).clone()) } else { E::Lit(self.data(5)) };
         }
@@ -1402,7 +1665,8 @@ impl Gen {
         let d = depth.saturating_sub(1);
         match pick {
             0 | 1 => vec![S::Text(self.text())],
-            2..=6 => vec![S::Emit(self.str_expr(3, sc))],
+            2..=5 => vec![S::Emit(self.str_expr(3, sc))],
+            6 => vec![S::Emit(self.kind_expr(sc))],
             7 => { let v = self.fresh("v"); let e = self.str_expr(3, sc); sc.strs.push(v.clone()); vec![S::Set(v, e)] }
             8 | 9 | 10 => {
                 self.feat("set-block");
@@ -1555,6 +1819,22 @@ fn gen_program(seed: u64, idx: u64) -> (Program, Vec<&'static str>, Vec<S>, bool
         Tree { name: g.data(3), children: vec![Tree { name: g.data(3), children: vec![] }, Tree { name: g.data(2), children: vec![Tree { name: g.data(2), children: vec![] }] }] },
         Tree { name: g.data(3), children: vec![] },
     ];
+    let kinds = {
+        let t = g.data(5);
+        let mut inv = vec![0xFFu8];
+        inv.extend_from_slice(t.as_bytes());
+        inv.extend_from_slice(&[0xC3, 0x28, 0x80]);
+        let fl = *g.rng.pick(&["1.5", "-0.25", "1e100", "inf", "NaN", "3.0"]);
+        let big = *g.rng.pick(&["170141183460469231731687303715884105727", "-170141183460469231731687303715884105728", "18446744073709551616"]);
+        vec![
+            ("kb".to_string(), format!("Y:{}", enc_bytes(&inv))),
+            ("kv".to_string(), format!("Y:{}", enc_bytes(g.data(5).as_bytes()))),
+            ("ko".to_string(), format!("O:{}", enc_str(&g.data(5)))),
+            // the model is given the text the engine's number formatter produces for this float
+            ("kf".to_string(), format!("F:{}", enc_str(&Value::from(fl.parse::<f64>().unwrap()).to_string()))),
+            ("ki".to_string(), format!("I:{big}")),
+        ]
+    };
     let base_scope = Scope {
         strs: strs.iter().map(|s| s.0.clone()).collect(), lists: lists.iter().map(|s| s.0.clone()).collect(),
         flags: flags.iter().map(|s| s.0.clone()).collect(), in_loop: false, caller: false, sup: false,
@@ -1644,7 +1924,7 @@ fn gen_program(seed: u64, idx: u64) -> (Program, Vec<&'static str>, Vec<S>, bool
     }
     templates.push(main);
     let feats = g.feats.clone();
-    (Program { templates, main: main_name, strs, lists, flags, tree }, feats, wrap_body, inherit)
+    (Program { templates, main: main_name, strs, lists, flags, tree, kinds }, feats, wrap_body, inherit)
 }
 
 fn tree_enc(ts: &[Tree]) -> String {
@@ -1667,6 +1947,9 @@ fn prog_ctx(p: &Program) -> serde_json::Map<String, serde_json::Value> {
     }
     for (n, b) in &p.flags {
         ctx.insert(n.clone(), json!(format!("B:{}", *b as u8)));
+    }
+    for (n, e) in &p.kinds {
+        ctx.insert(n.clone(), json!(e));
     }
     ctx.insert("tree".into(), json!(tree_enc(&p.tree)));
     ctx
@@ -1755,7 +2038,9 @@ fn main() {
             gen_fc(&mut out, tier);
             gen_modes(&mut out);
             gen_names(&mut out);
+            gen_kinds(&mut out);
             gen_programs(&mut out, tier);
+            gen_numbers(&mut out);
             gen_x(&mut out);
         }
         Some("one") => {
